@@ -152,4 +152,42 @@ example : Gen.tlsVerifySignature false 0 false false false false false false tru
 example : Gen.svVerifySCT false false = false ∧ Gen.svVerifySCT true false = true ∧ Gen.svVerifySCT false true = true := by decide
 example : Gen.ctutilVerifyWithVerifier true false false = true ∧ Gen.ctutilVerifyWithVerifier false false false = false := by decide
 
+/-! ### the witness verifier: a caller of SignatureVerifier.VerifySignature on a list of DigitallySigned blobs -/
+
+/-- **witnessVerify_iff.** A cosigned STH verifies under a witness key exactly when one of the witness signatures it carries verifies
+(as `verifySignature` says) over the encoded tree head — in particular never when it carries no signature. -/
+theorem witnessVerify_iff (P : Prims) (key : Key) (msg : Bytes) (sigs : List DigitallySigned) :
+    witnessVerify (sigs.map (verifySignature P key msg)) = .ok ↔ ∃ ds ∈ sigs, verifySignature P key msg ds = .ok := by
+  unfold witnessVerify
+  by_cases h : (sigs.map (verifySignature P key msg)).any (fun o => o == .ok) = true
+  · simp only [h, if_true, true_iff]
+    rw [List.any_eq_true] at h
+    obtain ⟨o, ho, hok⟩ := h
+    rw [List.mem_map] at ho
+    obtain ⟨ds, hds, rfl⟩ := ho
+    exact ⟨ds, hds, by simpa using hok⟩
+  · simp only [h, if_false]
+    constructor
+    · intro hc; cases hc
+    · rintro ⟨ds, hds, hok⟩
+      exfalso; apply h
+      rw [List.any_eq_true]
+      exact ⟨_, List.mem_map.mpr ⟨ds, hds, rfl⟩, by simp [hok]⟩
+
+theorem witnessVerify_no_signature : witnessVerify [] = .err := by decide
+
+/-- **witnessVerify_tie.** The model decides as the regenerated body of WitnessVerifier.VerifySignature does (no signature → error; then
+the loop "some signature verifies → nil"; else error), the STH always being encodable. -/
+theorem witnessVerify_tie (verdicts : List Outcome) :
+    witnessVerify verdicts = .ok ↔
+      Gen.witnessVerifySignature verdicts.isEmpty false (verdicts.any (fun o => o == .ok)) = false := by
+  unfold witnessVerify Gen.witnessVerifySignature
+  cases verdicts with
+  | nil => simp
+  | cons o os => cases h : (o :: os).any (fun o => o == Outcome.ok) <;> simp [h]
+
+example : Gen.witnessVerifySignature true false false = true ∧ Gen.witnessVerifySignature false false true = false ∧
+    Gen.witnessVerifySignature false false false = true := by decide
+example : witnessVerify [.err, .ok, .err] = .ok ∧ witnessVerify [.err, .err] = .err := by decide
+
 end C05Tie
